@@ -349,3 +349,6 @@ def run(ctx):
                    [b[0] for b in bad_[:4]], [b[1] for b in bad_[:4]], [b[2] for b in bad_[:4]]), None)
     except KeyError as e_:
         ctx.ob('PSTR-AGREE', 'aiff_write_header:MARK', False, ah_.loc(tot[0][0]), 'length expression uses a construct the evaluator does not model (%s)' % e_, None)
+
+    from engine.run import borrow
+    borrow(ctx, 'C11', ['WH-NOGROW'], 'metadata set too late (a string replaced after the audio was written) must never alter the audio: the variable-length header writers keep the data offset - fill a shorter header, refuse a longer one before writing it')
